@@ -262,6 +262,8 @@ class ExprMixin:
 
     def resolve_dotted(self, dotted: str) -> V:
         """Value of an imported name."""
+        if ("const", dotted) in self.reg.ext_models:
+            return self.reg.ext_models[("const", dotted)]
         if dotted in self.reg.ext_models or dotted in self.reg.fn:
             return VFunc("ext", dotted)
         parts = dotted.split(".")
